@@ -39,13 +39,16 @@ func c14Out(name string, v octosql.Value) string {
 	return EncodeValue(v)
 }
 
-func c14Trigger(name string, trig func() octosql.Value) (out string) {
+// c14Trigger: the reported value is kept as a Value and encoded only after the whole history has been applied — a value
+// that was reported stays what it was (a later Add / Trigger must not rewrite a list it handed out earlier).
+func c14Trigger(name string, trig func() octosql.Value) (out func() string) {
 	defer func() {
 		if r := recover(); r != nil {
-			out = "panic"
+			out = func() string { return "panic" }
 		}
 	}()
-	return c14Out(name, trig())
+	v := trig()
+	return func() string { return c14Out(name, v) }
 }
 
 func driveC14(toks []string) string {
@@ -80,7 +83,7 @@ func driveC14(toks []string) string {
 		every := toks[0] == "steps" || toks[0] == "fsteps"
 		rest := toks[4:]
 		flags := make([]byte, 0, n)
-		var outs []string
+		var held []func() string
 		for i := 0; i < n; i++ {
 			retr := rest[0] == "-"
 			var v octosql.Value
@@ -91,12 +94,15 @@ func driveC14(toks []string) string {
 				flags = append(flags, '0')
 			}
 			if every || i == n-1 {
-				outs = append(outs, c14Trigger(name, agg.Trigger))
+				held = append(held, c14Trigger(name, agg.Trigger))
 			}
 		}
 		if n == 0 {
-			outs = append(outs, c14Trigger(name, agg.Trigger))
-			return "- " + outs[0]
+			return "- " + c14Trigger(name, agg.Trigger)()
+		}
+		outs := make([]string, len(held))
+		for i, h := range held {
+			outs[i] = h()
 		}
 		return string(flags) + " " + strings.Join(outs, " ; ")
 	}
